@@ -205,3 +205,9 @@ Proof. intros H. unfold ul_file_kids. apply in_flat_map. exists (UFile n l i). s
 
 Lemma ul_inodes_dir n cs : ul_inodes (UDir n cs) = flat_map ul_inodes cs.
 Proof. reflexivity. Qed.
+
+Print Assumptions ul_vlookup_in.
+Print Assumptions ul_blocks_ceiling.
+Print Assumptions ul_dir_tags_eq.
+Print Assumptions ul_assign_fes_find.
+Print Assumptions ul_ads_sum.
